@@ -414,21 +414,28 @@ def dispatch (op : String) (args : List Tok) : Res :=
   | ["secp", o] => secpOp o args
   | _ => .bad "unknown op group"
 
+/-- the answer to ONE protocol line: a pure function of that line alone (`none` for blank lines) -/
+def answerLine (line : String) : Option String :=
+  let line := trimEol line
+  if line.isEmpty then none else
+  match line.splitOn "\t" with
+  | id :: op :: rest =>
+    match dispatch op (rest.map parseTok) with
+    | .ok s => some s!"{id}\tok\t{s}"
+    | .err e => some s!"{id}\terr\t{e.name}"
+    | .bad w => some s!"{id}\tbad-op\t{w}"
+  | _ => some "?\tbad-op\tmalformed line"
+
+/-- the whole transcript for a history of lines: no state is threaded from one line to the next -/
+def answerAll (lines : List String) : List String := lines.filterMap answerLine
+
 partial def loop (hin : IO.FS.Stream) (hout : IO.FS.Stream) : IO Unit := do
   let line ← hin.getLine
   if line.isEmpty then return ()
-  let line := trimEol line
-  if line.isEmpty then loop hin hout else
-  match line.splitOn "\t" with
-  | id :: op :: rest =>
-    let r := dispatch op (rest.map parseTok)
-    match r with
-    | .ok s => hout.putStrLn s!"{id}\tok\t{s}"
-    | .err e => hout.putStrLn s!"{id}\terr\t{e.name}"
-    | .bad w => hout.putStrLn s!"{id}\tbad-op\t{w}"
-    hout.flush
-    loop hin hout
-  | _ => hout.putStrLn s!"?\tbad-op\tmalformed line"; loop hin hout
+  match answerLine line with
+  | some out => hout.putStrLn out; hout.flush
+  | none => pure ()
+  loop hin hout
 
 def main : IO Unit := do
   loop (← IO.getStdin) (← IO.getStdout)
